@@ -79,6 +79,9 @@ enum Part { Commitment, BlindSig, BlindProof { flips: (usize, usize) } }
 struct Root { id: String, suite: Suite, l: usize, m: usize, hn: String, header: Option<Vec<u8>>, part: Part }
 
 pub fn run(env: &Env) {
+    // proofs assembled from public data only, presented to blind_proof_verify (shared with C04)
+    crate::c04::forgery_family(env, true);
+
     let seed = env.ctx.seed;
     let bound = if env.thorough() { 2 } else { 1 };
     let hs = hdr_small(seed);
@@ -185,7 +188,7 @@ pub fn run(env: &Env) {
                     ed_.push(ed("move last disclosed signer message into the committed list (messages only)".into(), "move-message-only", true, |s: &Bp| { let mut m = s.dmsgs.clone(); let x = m.pop()?; let mut c = s.dcmsgs.clone(); c.insert(0, x); Some(Bp { dmsgs: m, dcmsgs: c, ..s.clone() }) }));
                     ed_.push(ed("move first disclosed committed message into the signer list (messages only)".into(), "move-message-only", true, |s: &Bp| { if s.dcmsgs.is_empty() { return None; } let mut c = s.dcmsgs.clone(); let x = c.remove(0); let mut m = s.dmsgs.clone(); m.push(x); Some(Bp { dmsgs: m, dcmsgs: c, ..s.clone() }) }));
                     // relabel a disclosed committed message as a signer message at its absolute position L + 1 + j (and the converse)
-                    ed_.push(ed("relabel committed disclosure #0 as a signer disclosure at position L+1+j".into(), "relabel-committed-as-signer", true, |s: &Bp| { if s.dcmsgs.is_empty() || s.cidx.is_empty() { return None; } let mut c = s.dcmsgs.clone(); let x = c.remove(0); let mut ci = s.cidx.clone(); let j = ci.remove(0); let pos = j.checked_add(s.l)?.checked_add(1)?; let mut m = s.dmsgs.clone(); let mut i = s.idx.clone(); let at = i.iter().position(|&y| y > pos).unwrap_or(i.len()); m.insert(at, x); i.insert(at, pos); Some(Bp { dmsgs: m, idx: i, dcmsgs: c, cidx: ci, ..s.clone() }) }));
+                    ed_.push(ed("relabel committed disclosure #0 as a signer disclosure at position L+1+j".into(), "relabel-committed-as-signer", true, |s: &Bp| { if s.dcmsgs.is_empty() || s.cidx.is_empty() { return None; } let mut c = s.dcmsgs.clone(); let x = c.remove(0); let mut ci = s.cidx.clone(); let j = ci.remove(0); let pos = j.checked_add(s.l)?.checked_add(1)?; let mut m = s.dmsgs.clone(); let mut i = s.idx.clone(); let at = i.iter().position(|&y| y > pos).unwrap_or(i.len()); if at > m.len() { return None; } m.insert(at, x); i.insert(at, pos); Some(Bp { dmsgs: m, idx: i, dcmsgs: c, cidx: ci, ..s.clone() }) }));
                     ed_.push(ed("relabel signer disclosure #last as a committed disclosure at index i-L-1 (wrapping)".into(), "relabel-signer-as-committed", false, |s: &Bp| { let mut m = s.dmsgs.clone(); let x = m.pop()?; let mut i = s.idx.clone(); let xi = i.pop()?; let j = xi.wrapping_sub(s.l).wrapping_sub(1); let mut c = s.dcmsgs.clone(); let mut ci = s.cidx.clone(); c.push(x); ci.push(j); Some(Bp { dmsgs: m, idx: i, dcmsgs: c, cidx: ci, ..s.clone() }) }));
                     ed_.push(ed("move signer disclosure #last to the committed side (message and index)".into(), "move-disclosure", true, |s: &Bp| { let mut m = s.dmsgs.clone(); let x = m.pop()?; let mut i = s.idx.clone(); let xi = i.pop()?; if s.cidx.contains(&xi) { return None; } let mut c = s.dcmsgs.clone(); let mut ci = s.cidx.clone(); let pos = ci.iter().position(|&y| y > xi).unwrap_or(ci.len()); c.insert(pos, x); ci.insert(pos, xi); Some(Bp { dmsgs: m, idx: i, dcmsgs: c, cidx: ci, ..s.clone() }) }));
                     ed_.push(ed("move committed disclosure #0 to the signer side (message and index)".into(), "move-disclosure", true, |s: &Bp| { if s.dcmsgs.is_empty() || s.cidx.is_empty() { return None; } let mut c = s.dcmsgs.clone(); let x = c.remove(0); let mut ci = s.cidx.clone(); let xi = ci.remove(0); if s.idx.contains(&xi) { return None; } let mut m = s.dmsgs.clone(); let mut i = s.idx.clone(); let pos = i.iter().position(|&y| y > xi).unwrap_or(i.len()); m.insert(pos, x); i.insert(pos, xi); Some(Bp { dmsgs: m, idx: i, dcmsgs: c, cidx: ci, ..s.clone() }) }));
